@@ -66,6 +66,7 @@ func checkC04(c *Ctx, r *Report) {
 	// ---- R1
 	statusConjunct := false
 	nStore := 0
+	guardFns := map[*ssa.Function]*ssa.Call{}
 	for _, f := range li.Fns {
 		if originPkgPath(f) != proxyPkg {
 			continue
@@ -81,18 +82,62 @@ func checkC04(c *Ctx, r *Report) {
 					guard = x
 				}
 			})
+			if guard == nil {
+				// the predicate under whatever name and shape (method or function): a same-package bool helper on whose
+				// true edge the store lies and that consults ShouldCache
+				for _, fc := range factsAt(f, call.(ssa.Instruction)) {
+					x, ok := fc.cond.(*ssa.Call)
+					if !ok || !fc.truth {
+						continue
+					}
+					h := helperBody(x)
+					if h == nil || h.Signature.Results().Len() != 1 || !isBoolType(h.Signature.Results().At(0).Type()) {
+						continue
+					}
+					if findCall(h, "(*"+headersPkg+".HeaderDirectives).ShouldCache") != nil {
+						guard = x
+					}
+				}
+			}
 			ok := guard != nil && guardedByTruth(f, call.(ssa.Instruction), guard, true)
+			if ok {
+				guardFns[unwrapSynthetic(staticCallee(guard))] = guard
+			}
 			r.Check(ok, "C04.R1", fnKey(f)+": Cache() is gated", c.InstrPos(call), "dominated by shouldResponseBeCached()==true", "a response is stored without passing shouldResponseBeCached()")
 		})
 	}
 	r.Floor("C04.R1", nStore, 1, "cache store call sites in package proxy")
 	bs := &boolSummer{li: li}
-	for _, f := range c.FuncsNamed("(*" + proxyPkg + ".fetcher).shouldResponseBeCached") {
+	var guardList []*ssa.Function
+	for g := range guardFns {
+		if g != nil {
+			guardList = append(guardList, g)
+		}
+	}
+	if len(guardList) == 0 {
+		guardList = c.FuncsNamed("(*" + proxyPkg + ".fetcher).shouldResponseBeCached")
+	}
+	for _, f := range guardList {
 		liveIgnore := false
+		ignoreParam := ""
+		for pi, q := range f.Params {
+			if bt, isB := q.Type().Underlying().(*types.Basic); isB && bt.Kind() == types.Bool {
+				// the setting may be read by the caller and handed in
+				if gc := guardFns[f]; gc != nil && pi < len(callArgs(gc)) {
+					a := atomStr(callArgs(gc)[pi])
+					if strings.Contains(a, "IgnoreCacheControl") && strings.Contains(a, "Read(") {
+						ignoreParam = "$" + pname(q)
+					}
+				}
+			}
+		}
 		classify := func(a string) string {
 			switch {
 			case strings.HasPrefix(a, "ShouldCache("):
 				if strings.Contains(a, "IgnoreCacheControl") && strings.Contains(a, "Read(") {
+					liveIgnore = true
+				}
+				if ignoreParam != "" && strings.Contains(a, ignoreParam) {
 					liveIgnore = true
 				}
 				return "shouldCache"
